@@ -2595,6 +2595,24 @@ func (g *gen) systematicVC(method string) {
 				one(alt{kind: k})
 			}
 		}
+		// compensating pair: two validators' objects over the same content whose signatures are swapped -
+		// each is invalid for its own validator's share although the SUM of the signatures verifies under
+		// the SUM of the public shares (a batch that is verified as one aggregate would let both in);
+		// alone, in both orders and among valid entries
+		if isBatch(method) && g.cfg.m >= 2 {
+			other := (val + 1 + g.r.Intn(g.cfg.m-1)) % g.cfg.m
+			a, b := base, base
+			a.alt = alt{kind: "val", a: uint64(other)}
+			b.val, b.alt = other, alt{kind: "val", a: uint64(val)}
+			g.vc(vcOp{method: method, node: node, nsub: 1 + g.r.Intn(2), fail: -1, seed: g.seed(), items: []itemSpec{a, b}})
+			g.vc(vcOp{method: method, node: node, nsub: 1, fail: -1, seed: g.seed(), items: []itemSpec{b, a}})
+			if g.cfg.m >= 3 {
+				third := base
+				for third.val = 0; third.val == val || third.val == other; third.val++ {
+				}
+				g.vc(vcOp{method: method, node: node, nsub: 1, fail: -1, seed: g.seed(), items: []itemSpec{third, a, b}})
+			}
+		}
 	}
 }
 
@@ -2660,6 +2678,14 @@ func (g *gen) systematicPeer(kind int) {
 				}
 				g.peer(peerOp{ty: ty, slot: slot, nsub: 1 + g.r.Intn(2), seed: g.seed(), malt: "none", entries: es})
 			}
+		}
+		// compensating pair (see systematicVC): two validators' entries over the same content with swapped signatures
+		if g.cfg.m >= 2 && kind != kRaw {
+			other := (val + 1 + g.r.Intn(g.cfg.m-1)) % g.cfg.m
+			a, b := base, base
+			a.alt = alt{kind: "val", a: uint64(other)}
+			b.val, b.alt = other, alt{kind: "val", a: uint64(val)}
+			g.peer(peerOp{ty: ty, slot: slot, nsub: 1 + g.r.Intn(2), seed: g.seed(), malt: "none", entries: []entrySpec{a, b}})
 		}
 		// a large set (every validator of the cluster) in which exactly one entry, at any position of
 		// the map iteration, is invalid: the whole set must be refused
